@@ -460,7 +460,7 @@ impl<RW: QueueRW<T>, T> MultiQueue<RW, T> {
     }
 
     fn reload_tail_multi(&self, tail_cache: usize, count: usize) -> usize {
-        if let Some(max_diff_from_head) = self.tail.get_max_diff(count) {
+        if let Some(max_diff_from_head) = self.tail.get_max_diff(count, self.capacity as Index) {
             let current_tail = CountedIndex::get_previous(count, max_diff_from_head);
             if tail_cache == current_tail {
                 return current_tail;
@@ -478,7 +478,7 @@ impl<RW: QueueRW<T>, T> MultiQueue<RW, T> {
     }
 
     fn reload_tail_single(&self, count: usize) -> usize {
-        let max_diff_from_head = self.tail.get_max_diff(count).expect(
+        let max_diff_from_head = self.tail.get_max_diff(count, self.capacity as Index).expect(
             "The write head got ran over by consumers in single writer mode. This \
              process is borked!",
         );
